@@ -6,9 +6,9 @@ C35 model: `Program::simplify` (quil-rs/src/program/mod.rs:874-914).
   * one pass over the body collecting `handler.matching_frames(&expanded_program, instruction).used`
     (C26's business: the handler's answer per instruction is an INPUT here), the name of the waveform a
     PULSE / CAPTURE invokes (`get_waveform_invocation`), the name a `CALL` calls,
-  * `frames = self.frames.intersection(&frames_used)` — NOTE: the ORIGINAL program's frame set, not the
-    expanded program's (they differ only when a calibration body holds a DEFFRAME, which the parser does
-    not produce but the API allows),
+  * `frames = expanded_program.frames.intersection(&frames_used)` (the expanded program's frame set since
+    `fix:` commit 768d37f; before, the ORIGINAL program's, which differs when an API-built calibration
+    body holds a DEFFRAME),
   * `waveforms.retain(name used)`, `extern_pragma_map.retain(key is Some(name) with name called)`.
 
 `IndexMap`s are association lists in insertion order; `F`, `A`, … are abstract identities (the driver
@@ -47,13 +47,13 @@ def framesUsed (body : List (BInstr F)) : List F := body.flatMap (·.used)
 def waveformsUsed (body : List (BInstr F)) : List String := body.filterMap (·.waveform)
 def externsUsed (body : List (BInstr F)) : List String := body.filterMap (·.call)
 
-/-- `Program::simplify` after the expansion: `selfFrames` = `self.frames`, `e` = the expanded program. -/
-def simplify (selfFrames : List (F × String)) (e : Prog F) : Prog F :=
+/-- `Program::simplify` after the expansion: `e` = the expanded program. -/
+def simplify (e : Prog F) : Prog F :=
   { e with
     calibrations := []
-    -- `FrameSet::intersection` (frame.rs:109-122): iterates `self.frames` in order, keeps the identifiers
+    -- `FrameSet::intersection` (frame.rs:109-122): iterates the frames in order, keeps the identifiers
     -- contained in the set
-    frames := selfFrames.filter (fun f => (framesUsed e.body).contains f.1)
+    frames := e.frames.filter (fun f => (framesUsed e.body).contains f.1)
     waveforms := e.waveforms.filter (fun w => (waveformsUsed e.body).contains w.1)
     externs := e.externs.filter (fun x => match x.1 with
       | some n => (externsUsed e.body).contains n
